@@ -999,8 +999,125 @@ fn mw_expected_conc(exp: &Value) -> Value {
 }
 
 // ---------------------------------------------------------------------------------------------
+// ltimer (C18 / C13): the legacy capability API of crux_time under Core
+
+#[derive(Serialize, Deserialize, Clone, Debug, PartialEq, Eq)]
+pub enum LEvent {
+    Start(usize),
+    StartClear(usize),
+    Clear(usize),
+    Outcome(usize, String),
+}
+
+#[derive(crux_core::macros::Effect)]
+#[effect(name = "LEffect")]
+pub struct LCaps {
+    pub time: crux_time::Time<LEvent>,
+}
+
+#[derive(Default)]
+pub struct LApp;
+#[derive(Default)]
+pub struct LModel {
+    ids: std::collections::BTreeMap<usize, usize>,
+    outcomes: Vec<(usize, String)>,
+}
+
+impl crux_core::App for LApp {
+    type Event = LEvent;
+    type Model = LModel;
+    type ViewModel = (Vec<(usize, usize)>, Vec<(usize, String)>);
+    type Capabilities = LCaps;
+    type Effect = LEffect;
+    fn update(&self, event: LEvent, model: &mut LModel, caps: &LCaps) -> Command<LEffect, LEvent> {
+        let outcome = |i: usize| {
+            move |r: crux_time::TimeResponse| {
+                LEvent::Outcome(i, match r {
+                    crux_time::TimeResponse::DurationElapsed { .. } => "elapsed".into(),
+                    crux_time::TimeResponse::Cleared { .. } => "cleared".into(),
+                    other => format!("{other:?}"),
+                })
+            }
+        };
+        match event {
+            LEvent::Start(i) => {
+                let id = caps.time.notify_after(std::time::Duration::from_millis(100 + i as u64), outcome(i));
+                model.ids.insert(i, id.0);
+            }
+            LEvent::StartClear(i) => {
+                let id = caps.time.notify_after(std::time::Duration::from_millis(100 + i as u64), outcome(i));
+                model.ids.insert(i, id.0);
+                caps.time.clear(id);
+            }
+            LEvent::Clear(i) => caps.time.clear(crux_time::TimerId(model.ids[&i])),
+            LEvent::Outcome(i, o) => model.outcomes.push((i, o)),
+        }
+        Command::done()
+    }
+    fn view(&self, model: &LModel) -> Self::ViewModel {
+        (model.ids.iter().map(|(a, b)| (*a, *b)).collect(), model.outcomes.clone())
+    }
+}
+
+/// returns per step [effs, evs, set] as observed
+fn run_ltimer(steps: &[Value]) -> Value {
+    let r = catch_unwind(AssertUnwindSafe(|| -> Value {
+        let core = Core::<LApp>::new();
+        let base = crux_time::verif_cleared_len();
+        let mut reqs: std::collections::HashMap<usize, crux_core::Request<crux_time::TimeRequest>> = Default::default();
+        let mut seen_out = 0usize;
+        let mut obs = vec![];
+        for st in steps {
+            let i = st["i"].as_u64().unwrap() as usize;
+            let effs = match st["a"].as_str().unwrap() {
+                "start" => core.process_event(LEvent::Start(i)),
+                "start_clear" => core.process_event(LEvent::StartClear(i)),
+                "clear" => core.process_event(LEvent::Clear(i)),
+                _ => {
+                    let mut req = reqs.remove(&i).expect("no request to fire");
+                    let crux_time::TimeRequest::NotifyAfter { id, .. } = req.operation else { panic!() };
+                    core.resolve(&mut req, crux_time::TimeResponse::DurationElapsed { id }).expect("resolve")
+                }
+            };
+            let (ids, outcomes) = core.view();
+            let which = |id: usize| ids.iter().find(|(_, x)| *x == id).map(|(i, _)| *i).unwrap_or(0);
+            let mut ej = vec![];
+            for e in effs {
+                let LEffect::Time(req) = e;
+                match req.operation.clone() {
+                    crux_time::TimeRequest::NotifyAfter { id, .. } => {
+                        ej.push(json!({"k":"start","i":which(id.0)}));
+                        reqs.insert(which(id.0), req);
+                    }
+                    crux_time::TimeRequest::Clear { id } => ej.push(json!({"k":"clear","i":which(id.0)})),
+                    other => ej.push(json!({"k":format!("{other:?}")})),
+                }
+            }
+            let evs: Vec<Value> = outcomes[seen_out..].iter().map(|(i, o)| json!({"i":i,"o":o})).collect();
+            seen_out = outcomes.len();
+            obs.push(json!({"effs": ej, "evs": evs, "set": crux_time::verif_cleared_len() - base}));
+        }
+        json!(obs)
+    }));
+    r.unwrap_or_else(|_| json!("panic"))
+}
+
+// ---------------------------------------------------------------------------------------------
 
 pub fn run_case(case: &Value, nconc: usize) -> Vec<Value> {
+    if case["kind"] == "ltimer" {
+        // one execution per behaviour; the set size may be the strict one or the D11 one
+        let steps = case["out"].as_array().cloned().unwrap_or_default();
+        let obs = run_ltimer(&steps);
+        let strict: Vec<Value> = steps.iter().map(|s| json!({"effs": s["effs"], "evs": s["evs"], "set": s["set"]})).collect();
+        let kf: Vec<Value> = steps.iter().map(|s| json!({"effs": s["effs"], "evs": s["evs"], "set": s["setkf"]})).collect();
+        if obs == json!(strict) {
+            return vec![json!({"ok":true})];
+        }
+        let known = if obs == json!(kf) { json!("D11") } else { Value::Null };
+        return vec![json!({"ok":false,"known":known,"kind":"ltimer","in":case["in"],"conc":0,
+                           "expected": strict, "observed": obs})];
+    }
     let kind = case["kind"].as_str().unwrap();
     let inp = &case["in"];
     let exp = &case["out"];
